@@ -51,6 +51,7 @@ type gcase struct {
 	expect []nv // nil + known=false: '?'
 	known  bool
 	class  string
+	rtok   string // abstract records + layout for the Lean driver (line formats; "" = none)
 }
 
 type format struct {
@@ -192,6 +193,9 @@ func caseLine(f *format, c gcase) (string, bool) {
 		exp = listOf(c.expect)
 	}
 	line := f.name + " " + h + " " + exp
+	if f.lineA && c.rtok != "" {
+		line += " " + c.rtok
+	}
 	if !f.lineA {
 		doc, err := f.decode(c.data)
 		if err != nil {
